@@ -15,7 +15,7 @@ import ast
 from typing import Any, Dict, List, Optional, Tuple
 
 from ..cfg import cfg_of
-from ..flow import Sym, fpaths, attr_effects
+from ..flow import Sym, fpaths, attr_effects, allfacts
 from ..model import FuncInfo, attr_chain, norm, walk_no_nested
 from ..report import Checker
 from .common import must_attempt, shutdown_hook_check
@@ -229,7 +229,7 @@ def run(ch: Checker) -> None:
     missing = None
     npaths = 0
     for p in fpaths(gw):
-        if p.exit_kind != 'return' or dict(p.facts()).get('self.route') is not True:
+        if p.exit_kind != 'return' or allfacts(p).get('self.route') is not True:
             continue
         npaths += 1
         called = [attr_chain(c.func) for i, st in p.stmts() for c in walk_no_nested(st) if isinstance(c, ast.Call)]
